@@ -195,4 +195,44 @@ theorem noSpecRecursion_of_exec {T : TsDoc} (h : noRecursiveDirectives T = true)
   have := h d hd
   exact (ncontains_false.mp this) (mem_reachable_of_specReaches hreach)
 
+/-! ### the converse: the executable closure contains only what the relation reaches -/
+
+theorem SpecReaches.snoc {S : Schema} {a b c : Node} (h : SpecReaches S a b) (hc : c ∈ refs S b) : SpecReaches S a c := by
+  induction h with
+  | step h1 => exact .cons h1 (.step hc)
+  | cons h1 _ ih => exact .cons h1 (ih hc)
+
+theorem closure_sound {S : Schema} {a : Node} : ∀ (k : Nat) (V : List Node), (∀ x ∈ V, SpecReaches S a x) →
+    ∀ x ∈ closure S k V, SpecReaches S a x := by
+  intro k
+  induction k with
+  | zero => intro V h; exact h
+  | succ k ih =>
+    intro V h
+    simp only [closure]
+    apply ih
+    intro x hx
+    rcases (mem_insertNew _ _ _).mp hx with hx | hx
+    · exact h x hx
+    · obtain ⟨y, hy, hxy⟩ := List.mem_flatMap.mp hx
+      exact (h y hy).snoc hxy
+
+/-- every node of the executable closure is reached by the relation -/
+theorem specReaches_of_mem_reachable {T : TsDoc} {a b : Node} (h : b ∈ reachable T a) : SpecReaches ⟨T⟩ a b := by
+  unfold reachable at h
+  refine closure_sound _ _ ?_ b h
+  intro x hx
+  rcases (mem_insertNew _ _ _).mp hx with hx | hx
+  · cases hx
+  · exact .step hx
+
+/-- the relational form of the recursion rule implies the executable form: the two are the same rule -/
+theorem exec_of_noSpecRecursion {T : TsDoc} (h : NoSpecRecursion T) : noRecursiveDirectives T = true := by
+  simp only [noRecursiveDirectives, List.all_eq_true, Bool.not_eq_true']
+  intro d hd
+  exact ncontains_false.mpr fun hm => h d hd (specReaches_of_mem_reachable hm)
+
+theorem noRecursiveDirectives_iff {T : TsDoc} : noRecursiveDirectives T = true ↔ NoSpecRecursion T :=
+  ⟨noSpecRecursion_of_exec, exec_of_noSpecRecursion⟩
+
 end NitroVerif.ValidTs
